@@ -40,12 +40,6 @@ theorem c13_onCycle_sound (P : Prog) (env : Nat → Nat) (i : Nat)
     (h : onCycle P env i = true) : Reach P env i i :=
   onCycle_sound P env i h
 
-theorem dbOkF_nil (P : Prog) (env : Nat → Nat) : DbOkF P env [] :=
-  fun _ _ h => nomatch h
-
-/-- the memoised results as an assignment. -/
-def results (s : St) : Nat → Nat := fun c => (s.final.lookup c).getD 0
-
 /-- **c13_participants (⇒) + value dichotomy.**  After a successful request (any entry `j`,
     any justified database `final`), every memo `w` of a node `x` is either the node's fallback
     value *and `x` lies on a cycle of the input-determined call graph*, or the node's body over
@@ -111,21 +105,6 @@ theorem c13_calls_active_partial (P : Prog) (env : Nat → Nat) (hNX : NoFixpoin
   (loop_specF P env hNX hR j s0 hs0 fuel stamp s v hs s' hI hst hE0 h).2.2.2.2.2.2
     ⟨c, hc, hact⟩ fv hstr
 
-/-- justified databases are preserved by requests (successful or panicking). -/
-theorem dbOkF_gets (P : Prog) (env : Nat → Nat) (hNX : NoFixpoint P) (js : List Nat) :
-    ∀ db : Db, DbOkF P env db.final → DbOkF P env (C12.gets P env db js).final := by
-  induction js with
-  | nil => intro db h; exact h
-  | cons j js ih =>
-    intro db h
-    apply ih
-    unfold Db.get
-    cases he : eval P env db.final db.poisoned j with
-    | error e => exact h
-    | ok r =>
-      obtain ⟨v, s⟩ := r
-      exact (eval_soundF P env hNX h db.poisoned j v s he).2.1
-
 /-- **c13_entry_independent (partial).**  Two successful requests with arbitrary entry nodes
     `j₁`, `j₂` after arbitrary histories `js₁`, `js₂`: a node `x` memoised by both that is on no
     cycle has the same value in both as soon as its callees have (so, by induction along the
@@ -133,9 +112,9 @@ theorem dbOkF_gets (P : Prog) (env : Nat → Nat) (hNX : NoFixpoint P) (js : Lis
     `c13_outside` mention neither the entry nor the history. -/
 theorem c13_entry_independent_partial (P : Prog) (env : Nat → Nat) (hNX : NoFixpoint P)
     (js₁ js₂ : List Nat) (j₁ j₂ v₁ v₂ : Nat) (s₁ s₂ : St)
-    (h₁ : eval P env (C12.gets P env Db.empty js₁).final (C12.gets P env Db.empty js₁).poisoned j₁
+    (h₁ : eval P env (gets P env Db.empty js₁).final (gets P env Db.empty js₁).poisoned j₁
       = .ok (v₁, s₁))
-    (h₂ : eval P env (C12.gets P env Db.empty js₂).final (C12.gets P env Db.empty js₂).poisoned j₂
+    (h₂ : eval P env (gets P env Db.empty js₂).final (gets P env Db.empty js₂).poisoned j₂
       = .ok (v₂, s₂))
     (x w₁ w₂ : Nat) (hx₁ : s₁.final.lookup x = some w₁) (hx₂ : s₂.final.lookup x = some w₂)
     (hnc : ¬ Reach P env x x)
@@ -171,17 +150,17 @@ example : NoFixpoint exF := by
 
 /-- with the edge 1 → 0 enabled, 0 and 1 are on a cycle and take their fallbacks from every
     entry; 2 is outside and is its body over those results (4 ∪ 101 = 101). -/
-example : C12.okOf (fun r => (r.1, r.2.final.lookup 0, r.2.final.lookup 1, r.2.iters))
+example : okOf (fun r => (r.1, r.2.final.lookup 0, r.2.final.lookup 1, r.2.iters))
     (eval exF envCyc [] [] 2) = some (101, some 100, some 101, 0) := by decide
-example : C12.okOf (fun r => (r.1, r.2.final.lookup 0, r.2.final.lookup 1))
+example : okOf (fun r => (r.1, r.2.final.lookup 0, r.2.final.lookup 1))
     (eval exF envCyc [] [] 1) = some (101, some 100, some 101) := by decide
-example : C12.okOf (fun r => (r.1, r.2.final.lookup 0, r.2.final.lookup 1))
+example : okOf (fun r => (r.1, r.2.final.lookup 0, r.2.final.lookup 1))
     (eval exF envCyc [] [] 0) = some (100, some 100, some 101) := by decide
 /-- without it nothing is cyclic and every node is its body: 1 = 2, 0 = 3, 2 = 6. -/
-example : C12.okOf (fun r => (r.1, r.2.final.lookup 0, r.2.final.lookup 1))
+example : okOf (fun r => (r.1, r.2.final.lookup 0, r.2.final.lookup 1))
     (eval exF envNo [] [] 2) = some (6, none, some 2) := by decide
 /-- the self-loop. -/
-example : C12.okOf (·.1) (eval exF envNo [] [] 3) = some 103 := by decide
+example : okOf (·.1) (eval exF envNo [] [] 3) = some 103 := by decide
 example : 3 ∈ callees envNo (exF.node 3).body := by decide
 example : onCycle exF envCyc 0 = true ∧ onCycle exF envCyc 2 = false := by decide
 example : fbReferenceL exF envCyc = [100, 101, 101, 103] := by decide
